@@ -41,10 +41,10 @@ CHECKS = {
          "Generated engines/utterances/conditions incl. thresholds exactly equal to a state's voicing weight; per-frame voiced <=> weight > threshold, monotone in the threshold, other streams bitwise untouched.",
          "Uses the verif-hooks accessor; frame->state mapping from the public duration estimator.", "4/C11"),
  "C12": ("exploration", "PBT with a statistical oracle (variance ratio over GV-eligible frames) and exact differential for the no-eligible-frame case",
-         "Hundreds of 10..60-label utterances x 3 GV weights on the bundled voice and perturbed copies: per-coefficient variance within 20 % of weight x GV mean (measured 6 %), monotone in the weight; silence-only utterances equal the plain ML solution bitwise; non-GV stream untouched.",
+         "Hundreds of 10..60-label utterances x 3 GV weights on the bundled voice and perturbed copies: per-coefficient variance within 20 % of weight x GV mean (measured 6 %), monotone in the weight; silence-only utterances equal the plain ML solution bitwise; non-GV stream untouched; voice sets with different GV statistics; copies whose header clears USE_GV while keeping the GV data must behave as streams without GV.",
          "Eligibility computed with the harness's own glob matcher on the label text.", "4/C12"),
  "C13": ("exploration", "PBT with a physical oracle: measured pulse response vs minimum-phase impulse response of K/A(z~)^s computed independently (polynomial LSP->LPC, homomorphic IR)",
-         "Generated LSP sets (orders 2..24 even/odd, stages 1..4, alpha, linear/log gain, minimal spacing) compared in the time domain (1e-6 of the peak) and in log-magnitude (0.001 neper within 100 dB of the peak).",
+         "Generated LSP sets (orders 2..24 even/odd, stages 1..4, alpha, linear/log gain, minimal spacing) compared in the time domain (1e-6 of the peak) and in log-magnitude (0.001 neper within 100 dB of the peak); the same after generated frame histories; generated LSP voice FILES: engine output == Vocoder built from the stage / gain convention / alpha written into the file.",
          "Truncation of the finite measurement window is cancelled by truncating the reference identically.", "4/C13"),
  "C14": ("exploration", "PBT, metamorphic: pulse responses with and without the postfilter vs the closed-form (1+beta) law and energy equality",
          "Generated cepstra x beta: spectral relation constant within 0.005 neper, energy within 1 %, bitwise no-op for beta = 0 and length 2.",
@@ -59,7 +59,7 @@ CHECKS = {
          "Every ToLabels form incl. const-size arrays of 6 sizes, blank lines and time stamps; thousands of corrupted lines per run (12 operators) must yield Ok or a label error, never a panic.",
          "With alignment on only finite times below 10 minutes are in the domain.", "4/C17"),
  "C18": ("fault_enumeration", "deterministic single-fault grid + generated single/double/triple faults on valid voice files, process-isolated, with counting allocator and hang monitor",
-         "Complete grid (every header number x 11 replacements, every header line deleted/duplicated, every boundary truncation) on the bundled voice and 20 generated voices, plus thousands of generated multi-faults incl. tree/question edits and byte flips; oracle: Ok or Err, no panic, bounded heap, termination. An abort or hang of the loader is attributed by re-running the in-flight case in a fresh process.",
+         "Complete grid (every header number x 15 replacements incl. non-ASCII digits, every header line deleted/duplicated, every boundary truncation, every single-character substitution - 17 structural characters and the 8 one-bit errors - at every position of the header / tree / window text of generated voices and of the bundled header) on the bundled voice and 20 generated voices, plus thousands of generated multi-faults incl. tree/question edits and byte flips; oracle: Ok or Err, no panic, bounded heap, termination. An abort or hang of the loader is attributed by re-running the in-flight case in a fresh process.",
          "Built with overflow checks (arithmetic overflow counts as a panic). One known finding lives in the dependency jlabel-question (listed in known_findings.json).", "4/C18"),
  "C19": ("exploration", "PBT: one-field metadata variants of generated voice files; model-based histories of weight updates (reference model = last accepted vector per slot)",
          "Every metadata field of the statement varied in isolation on complete loadable voice files at every position of 2..3 voices; histories of valid/invalid updates (wrong length, sum off, NaN, inf) with getter and waveform comparison against a fresh engine.",
